@@ -58,7 +58,7 @@ PROPS = {
 PROBES = {'C06': ['readd_removed_other_stride', 'append_differing_props', 'extract_into_nonempty',
                   'op_on_empty_array', 'nonlocal_tags_at_align', 'pickle_strided', 'set_tag_called',
                   'clear_then_reuse', 'append_update_constants', 'remove_all', 'extract_duplicate_indices',
-                  'add_property_fills_empty_array', 'fill_empty_array_with_strided_props_declared', 'remove_unsorted_indices']}
+                  'add_property_fills_empty_array', 'fill_empty_array_with_strided_props_declared', 'remove_unsorted_indices', 'copy_properties_open_ended']}
 
 
 def prepare(prop, tier):
@@ -754,16 +754,32 @@ def apply_op(w, op):
         start = (idx[0] if idx else 0) % (n - nb + 1)
         ra = real_records(pa)
         rb = real_records(pb)
-        pa.copy_properties(pb, start, start + nb)
-        gone = [canon(r) for r in ra[start:start + nb]]
+        form = int(op.get('variant', 0)) % 3
+        ncopy = nb
+        if form == 2 and nb == n:
+            # both indices omitted: the arrays have the same length, everything is copied
+            start = 0
+            pa.copy_properties(pb)
+            desc = 'copy_properties(array %d)' % bi
+            w.probe('copy_properties_open_ended')
+        elif form == 1:
+            # end index omitted: from start_index to the end of self, as many values as that takes from the source
+            start = n - 1 - ((idx[0] if idx else 0) % nb)
+            ncopy = n - start
+            pa.copy_properties(pb, start) if (idx[0] if idx else 0) % 2 else pa.copy_properties(pb, start_index=start)
+            desc = 'copy_properties(array %d, start_index=%d)' % (bi, start)
+            w.probe('copy_properties_open_ended')
+        else:
+            pa.copy_properties(pb, start, start + nb)
+            desc = 'copy_properties(array %d, %d, %d)' % (bi, start, start + nb)
+        gone = [canon(r) for r in ra[start:start + ncopy]]
         _remove(w, m, gone)
-        for j in range(nb):
+        for j in range(ncopy):
             r = dict(ra[start + j])
             for p in common:
                 r[p] = rb[j][p]
             m.recs.append(r)
         m.aligned = False if 'tag' in common else m.aligned
-        desc = 'copy_properties(array %d, %d, %d)' % (bi, start, start + nb)
     elif k == 'copy_over':
         name2 = op.get('name2') if op.get('name2') in POOL else 'y'
         if name not in m.props or name2 not in m.props or name == name2:
